@@ -88,7 +88,11 @@ func (r *restoreOracle) State(c *explore.Ctx, w *world.World) {
 			continue
 		}
 		if d := spec.Delta(spec.Balances(w), spec.Balances(s2)); len(d) != 0 {
-			c.Report(r.property, "restore", t.kind+":balances-changed", fmt.Sprintf("%s followed by its inverse changed balances by %s", DescribeAction(t.on), spec.FmtDelta(d, uni.Name)))
+			bsig := t.kind + ":balances-changed"
+			if onlySystemAccountHolding(d, map[string]*big.Int{}) {
+				bsig += ":system-account-own-holding"
+			}
+			c.Report(r.property, "restore", bsig, fmt.Sprintf("%s followed by its inverse changed balances by %s", DescribeAction(t.on), spec.FmtDelta(d, uni.Name)))
 		}
 		for i, act := range menu {
 			if _, ok := base[i]; !ok {
@@ -97,7 +101,15 @@ func (r *restoreOracle) State(c *explore.Ctx, w *world.World) {
 			}
 			_, legs := env.Step(s2, act)
 			if got := legsSummary(legs); got != base[i] {
-				c.Report(r.property, "restore", t.kind+":behaviour-differs", fmt.Sprintf("after %s and its inverse, %s behaves differently: %s instead of %s", DescribeAction(t.on), DescribeAction(act), got, base[i]))
+				sig := t.kind + ":behaviour-differs"
+				if act.Kind == world.ActCall && spec.IsSystemAccount(act.Recipient) && world.TransferFuncs[act.Func] {
+					// the differing action is a transfer addressed to the system account itself
+					sig += ":transfer-to-system-account"
+				} else if strings.Contains(got+base[i], "sys:") {
+					// the two outcomes differ in the system account's own holding
+					sig += ":system-account-own-holding"
+				}
+				c.Report(r.property, "restore", sig, fmt.Sprintf("after %s and its inverse, %s behaves differently: %s instead of %s", DescribeAction(t.on), DescribeAction(act), got, base[i]))
 			}
 		}
 		c.Class("restore-checked:" + t.kind)
